@@ -6,7 +6,7 @@ from typing import List, Optional
 
 from ..astutil import arg_or_kw, body_walk, dotted, is_const, norm, positional_params, short, walk_local
 from ..cfg import cfg_of
-from ..common import check_width_carried, circuit_ctor_calls, find_calls_named, ops_expr, returned_exprs, stmt_of, width_expr
+from ..common import exit_exprs, check_width_carried, circuit_ctor_calls, find_calls_named, ops_expr, returned_exprs, stmt_of, width_expr
 from ..flow import Defs, concat_parts, is_max2
 from ..orient import Orient, count_reversals, fold_direction
 
@@ -73,7 +73,7 @@ def check_threading(ctx, fi, init_param: str, allow_fresh: bool):
         cand = {norm(_state_arg(c)) for c in find_calls_named(fi.node, ["apply", "_get_wavefunction_from_native_circuit"]) if isinstance(_state_arg(c), ast.Name)}
         if len(cand) == 1:
             acc = cand.pop()
-            for r in returned_exprs(fi.node):
+            for r in exit_exprs(fi.node):
                 inner = r.args[0] if isinstance(r, ast.Call) and len(r.args) == 1 and not r.keywords else r
                 if not (isinstance(inner, ast.Name) and inner.id == acc):
                     ctx.violation(R1, fi.key + f":exit:{short(r, 40)}", f"an exit returns {short(r)}, which is not the threaded state '{acc}': on that path the caller's {init_param} (and whatever was applied before) is ignored", f"{fi.module.relpath}:{r.lineno}")
@@ -426,6 +426,9 @@ def check_embedding_paths(ctx):
             ctx.undecided(R5, w.key, "expected one call to _lift_matrix", w)
             continue
         c = inner[0]
+        # ... on every exit: a twin that answers some placements itself (a "contiguous block" shortcut) is a second embedding
+        other_exits = [r for r in exit_exprs(w.node) if not any(x is c for x in ast.walk(r))]
+        ctx.check(not other_exits, R5, w.key + ":exits", "the only exit is the _lift_matrix call", f"{name} also returns {short(other_exits[0], 90) if other_exits else ''}: an embedding built without _lift_matrix's permutation, so gates whose qubits are not listed in ascending order (CNOT(1, 0), a control inserted above its target) are placed differently on this path than on the numeric one", f"{w.module.relpath}:{other_exits[0].lineno}" if other_exits else w)
         ok = len(c.args) >= 3 and [norm(a) for a in c.args[:3]] == ps[:3]
         ctx.check(ok, R5, w.key, "forwards (matrix, qubits, num_qubits) in order", f"{short(c, 80)} does not forward (matrix, qubits, num_qubits) in that order", w)
         # ... and forwards them *as received*: the two twins are one interface over two number types, so what one of them
